@@ -1183,3 +1183,107 @@ def gen_v2(seed, n, start_id=0, persist=False):
                     sweep(working)
         out.append((hid, lines))
     return out
+
+
+# ---------------------------------------------------------------------------------------------
+# C16: a legacy phase executed by the real legacy library (iavl v0.20.0), then the current library
+# on the same database
+
+def gen_legacy(seed, n, start_id=0):
+    out = []
+    for i in range(n):
+        r = random.Random((seed * 32452843 + start_id + i) & 0xFFFFFFFFFFFF)
+        hid = "l%d" % (start_id + i)
+        prof = Profile(nkeys=7, dbs=["mem"], ivs=[None], p_empty_value=0.05, p_hash_read=0.2, check_all_versions=0.0)
+        h = Hist.__new__(Hist)
+        h.r, h.p, h.lines = r, prof, []
+        h.versions, h.working, h.base, h.dirty = {}, {}, 0, False
+        h.iv_pending, h.iv_opt, h.wlog, h.curlog, h.pruned_ever = None, 0, {}, [], False
+        h.keys = r.sample(KEYS, r.randint(2, 7))
+        h.cfg = {"db": "mem"}
+        h.opened = True
+        h.emit("new %s legacy" % hid)
+        fast = r.choice([True, True, False])
+        h.emit("cfg cache=%d fast=%d thr=%d iv=-" % (r.choice([0, 2, 100]), int(fast), r.choice([0, 0, 200, 400])))
+        h.cfg.update(cache=0, fast=fast, thr=0, iv=None)
+        # legacy phase
+        nleg = r.randint(1, 6)
+        for _ in range(nleg):
+            if r.random() > 0.25:
+                for _ in range(r.randint(0, 5)):
+                    h.one_write()
+            h.save()
+        legacy_latest = h.latest()
+        # legacy-side deletions (so that orphan records exist / are consumed)
+        x = r.random()
+        if x < 0.3 and nleg >= 2:
+            v = r.randint(1, nleg - 1)
+            h.emit("ldel %d" % v)
+            h.versions.pop(v, None)
+        elif x < 0.5 and nleg >= 3:
+            a = r.randint(1, nleg - 2)
+            b = r.randint(a + 1, nleg - 1)
+            h.emit("ldelrange %d %d" % (a, b + 1 if b + 1 <= nleg else b))
+            for v in range(a, (b + 1 if b + 1 <= nleg else b)):
+                h.versions.pop(v, None)
+        h.emit("adopt")
+        h.base = legacy_latest
+        h.working = dict(h.versions[legacy_latest])
+        h.dirty = False
+        h.curlog = []
+        h.sweep()
+        for v in range(0, legacy_latest + 2):
+            h.emit("vexists %d" % v)
+        # new-format phase on top
+        for _ in range(r.randint(1, 6)):
+            x = r.random()
+            if x < 0.55:
+                if r.random() > 0.3:
+                    for _ in range(r.randint(0, 4)):
+                        h.one_write()
+                h.read_ops(1)
+                h.save()      # incl. commits without writes on a legacy root
+                if r.random() < 0.4:
+                    h.sweep()
+            elif x < 0.75 and len(h.versions) >= 2:
+                # prune below, at and above the boundary
+                lo, hi = h.first(), h.latest()
+                if hi > lo and not h.dirty:
+                    nn = r.choice([lo, legacy_latest - 1, legacy_latest, legacy_latest + 1, r.randint(lo, hi - 1)])
+                    nn = max(lo, min(nn, hi - 1))
+                    if h.base > nn:
+                        h.emit("prune %d" % nn)
+                        # the legacy versions are deleted in bulk: a target inside the legacy range below its
+                        # latest version deletes nothing; at or above it all legacy versions go at once
+                        if nn >= legacy_latest or legacy_latest not in h.versions:
+                            for v in list(h.versions):
+                                if v <= nn:
+                                    del h.versions[v]
+                        h.pruned_ever = True
+                        h.sweep()
+            elif x < 0.87 and not h.dirty and h.versions:
+                # rollback, possibly into the legacy range
+                v = r.choice(sorted(h.versions))
+                h.emit("loadow %d" % v)
+                for u in list(h.versions):
+                    if u > v:
+                        del h.versions[u]
+                h.base = v
+                h.working = dict(h.versions[v])
+                h.curlog = []
+                h.sweep()
+            else:
+                if h.dirty:
+                    h.rollback()
+                h.emit("close")
+                fast2 = r.choice([True, False])
+                h.emit("cfg cache=%d fast=%d thr=%d iv=-" % (r.choice([0, 3, 100]), int(fast2), r.choice([0, 300])))
+                h.emit("open")
+                h.base = h.latest()
+                h.working = dict(h.versions.get(h.base, {}))
+                h.sweep()
+        if h.dirty:
+            h.rollback()
+        h.sweep()
+        out.append((hid, h.lines))
+    return out
